@@ -210,7 +210,7 @@ def run(chk):
         'continuity criterion (1% band around the chord through d = +-1e-3) along each argument',
     ]
     chk.not_covered += ['T7, T8 (complex square roots / logarithms)', 'degeneracies of full models (composition through '
-                        'the spectrum calculation)', 'MSSM kernels (amu1LBmuLmuR, tan_alpha)']
+                        'the spectrum calculation)', 'MSSM kernel amu1LBmuLmuR']
     kernels(chk)
     from . import C11b
     C11b.run(chk)
